@@ -68,3 +68,18 @@ def as_bool(r):
     if r[1] == '(vb 0)':
         return False
     return None
+
+
+def same_value(r0, r1, rel=1e-9):
+    """results of the Lean evaluator agree: identical, or both numbers within a relative tolerance (the implementation folds with IEEE
+    floats, the reference semantics is exact)"""
+    if r0 == r1:
+        return True
+    if r0 is None or r1 is None or r0[0] != 'ok' or r1[0] != 'ok':
+        return False
+    a, b = loads(r0[1]), loads(r1[1])
+    if isinstance(a, list) and isinstance(b, list) and a and b and a[0] == 'vn' and b[0] == 'vn':
+        x = int(a[1]) / int(a[2])
+        y = int(b[1]) / int(b[2])
+        return abs(x - y) <= rel * max(1.0, abs(x), abs(y))
+    return False
